@@ -10,10 +10,17 @@ import LopdfModel.Spec.PdfDate
 namespace Lopdf
 open Gen Spec
 
-/-- in-range broken-down fields (years 0000–9999, offsets within ±23:59) -/
+theorem daysInMonth_le (y m : Nat) : daysInMonth y m ≤ 31 := by
+  unfold daysInMonth; split <;> (try split) <;> omega
+
+/-- valid broken-down fields: years 0000–9999, a day that exists in that month of that year
+(proleptic Gregorian), offsets within ±23:59 -/
 def FieldsOk (f : Fields) : Prop :=
-  f.year < 10000 ∧ 1 ≤ f.month ∧ f.month ≤ 12 ∧ 1 ≤ f.day ∧ f.day ≤ 31 ∧ f.hour < 24 ∧ f.minute < 60 ∧ f.second < 60
-    ∧ f.offH < 24 ∧ f.offM < 60
+  f.year < 10000 ∧ 1 ≤ f.month ∧ f.month ≤ 12 ∧ 1 ≤ f.day ∧ f.day ≤ daysInMonth f.year f.month ∧ f.hour < 24
+    ∧ f.minute < 60 ∧ f.second < 60 ∧ f.offH < 24 ∧ f.offM < 60
+
+theorem FieldsOk.day_le (f : Fields) (h : FieldsOk f) : f.day ≤ 31 :=
+  Nat.le_trans h.2.2.2.2.1 (daysInMonth_le _ _)
 
 instance (f : Fields) : Decidable (FieldsOk f) := by unfold FieldsOk; exact inferInstance
 
@@ -239,6 +246,7 @@ theorem parse_full (z : Bool) (f : Fields) (hf : FieldsOk f) :
   cases f with
   | mk y mo d h mi s neg oh om =>
     simp only at h1 h2 h3 h4 h5 h6 h7 h8 h9 h10
+    have h5' : d ≤ 31 := Nat.le_trans h5 (daysInMonth_le _ _)
     cases neg <;>
       simp [Fields.stripped, pad4, pad2, parseToks, parseTok, num2_digits, signByte, zeroFields,
         year_digits y h1, two_digits mo (by omega), two_digits d (by omega), two_digits h (by omega),
@@ -250,6 +258,7 @@ theorem parse_full_time (f : Fields) (hf : FieldsOk f) :
   cases f with
   | mk y mo d h mi s neg oh om =>
     simp only at h1 h2 h3 h4 h5 h6 h7 h8 h9 h10
+    have h5' : d ≤ 31 := Nat.le_trans h5 (daysInMonth_le _ _)
     cases neg <;>
       simp [Fields.stripped, pad4, pad2, parseToks, parseTok, num2_digits, signByte, zeroFields,
         year_digits y h1, two_digits mo (by omega), two_digits d (by omega), two_digits h (by omega),
@@ -402,6 +411,7 @@ theorem parse_z_permissive (f : Fields) (hf : FieldsOk f) :
   cases f with
   | mk y mo d h mi s neg oh om =>
     simp only at h1 h2 h3 h4 h5 h6 h7 h8 h9 h10
+    have h5' : d ≤ 31 := Nat.le_trans h5 (daysInMonth_le _ _)
     simp [Fields.strippedZ, Fields.utc, pad4, pad2, parseToks, parseTok, num2_digits, zeroFields,
       year_digits y h1, two_digits mo (by omega), two_digits d (by omega), two_digits h (by omega),
       two_digits mi (by omega), two_digits s (by omega)]
@@ -420,6 +430,7 @@ theorem parse_z_literal (z : Bool) (f : Fields) (hf : FieldsOk f) :
   cases f with
   | mk y mo d h mi s neg oh om =>
     simp only at h1 h2 h3 h4 h5 h6 h7 h8 h9 h10
+    have h5' : d ≤ 31 := Nat.le_trans h5 (daysInMonth_le _ _)
     simp [Fields.strippedZ, Fields.utc, pad4, pad2, parseToks, parseTok, num2_digits, zeroFields,
       year_digits y h1, two_digits mo (by omega), two_digits d (by omega), two_digits h (by omega),
       two_digits mi (by omega), two_digits s (by omega)]
@@ -473,23 +484,30 @@ theorem z_strip_parse_rt (lib : DateLib) (hlib : LibParses lib) (f : Fields) (hf
     unfold timeParse
     rw [hL, firstAltTime_none _ _ _ _ _ e1, firstAltTime_some _ _ _ _ _ _ e2, applyKind_utc]
 
-/-- F-C18-b repaired: `From<time::Time>` yields the `Z` date form of the current UTC date at the given time of day -/
-theorem time_time_shape (lib : DateLib) (hlib : LibFormats lib) (f : Fields) (hf : FieldsOk f) :
-    timeTimeString lib f = some f.pdfZ := by
-  unfold timeTimeString; rw [(hlib _ f hf).2]
-  show renderToks f (tokTimeFd TIME_TIME_FMT none) = _
+/-- F-C18-b repaired: `From<time::Time>` yields the `Z` date form of `today`'s date (what
+`OffsetDateTime::now_utc()` returned — assumed only to be a valid UTC date in years 0000–9999, see
+`timeTimeString`) at the given time of day -/
+theorem time_time_shape (lib : DateLib) (hlib : LibFormats lib) (today : Fields) (ht : FieldsOk today)
+    (h mi s : Nat) (hh : h < 24) (hmi : mi < 60) (hs : s < 60) :
+    timeTimeString lib today h mi s = some (pdfDateZ today.year today.month today.day h mi s) := by
+  have hok : FieldsOk { today with hour := h, minute := mi, second := s, offNeg := false, offH := 0, offM := 0 } := by
+    obtain ⟨h1, h2, h3, h4, h5, _, _, _, _, _⟩ := ht
+    exact ⟨h1, h2, h3, h4, h5, hh, hmi, hs, by show 0 < 24; omega, by show 0 < 60; omega⟩
+  unfold timeTimeString; rw [(hlib _ _ hok).2]
+  show renderToks _ (tokTimeFd TIME_TIME_FMT none) = _
   rw [tok_time_time]
-  simp [renderToks, renderTok, Fields.pdfZ, pdfDateZ, pad2_eq, pad4_eq]
+  simp [renderToks, renderTok, pdfDateZ, pad2_eq, pad4_eq]
 
 /-- the UTC producers (chrono `DateTime<Utc>`, jiff `Timestamp`, `time::Time`) into every backend -/
 theorem z_format_strip_parse (lib : DateLib) (hF : LibFormats lib) (hP : LibParses lib) (f : Fields) (hf : FieldsOk f) :
-    ∀ s ∈ [chronoUtcString lib f, jiffTimestampString lib f, timeTimeString lib f],
+    ∀ s ∈ [chronoUtcString lib f, jiffTimestampString lib f, timeTimeString lib f f.hour f.minute f.second],
       ∃ bs, s = some bs ∧
         (asDatetime (.str bs .lit)).bind (chronoParse lib) = some f.utc ∧
         (asDatetime (.str bs .lit)).bind (jiffParse lib) = some f.utc ∧
         (asDatetime (.str bs .lit)).bind (timeParse lib) = some f.utc := by
   have hs := date_string_shape lib hF f hf
-  have ht := time_time_shape lib hF f hf
+  have ht : timeTimeString lib f f.hour f.minute f.second = some f.pdfZ :=
+    time_time_shape lib hF f hf f.hour f.minute f.second hf.2.2.2.2.2.1 hf.2.2.2.2.2.2.1 hf.2.2.2.2.2.2.2.1
   have hp := z_strip_parse_rt lib hP f hf .lit
   intro s hs'
   simp only [List.mem_cons, List.not_mem_nil, or_false] at hs'
